@@ -1,3 +1,144 @@
-namespace Placeholder
-theorem placeholder_C07 : True := trivial
-end Placeholder
+import Proofs.Spawn
+/-!
+# C07  Popen exists iff the program started; failed launches leave nothing behind
+
+Theorems about `Spawn.parentRun` / `Spawn.childRun` for **every** list of operating-system answers,
+i.e. every fault-injection point (the k-th `pipe`/`fcntl` failing for every k, `fork` failing, each
+child-side step failing with any errno), every stream configuration, detached or not.
+Conformance: the real `Popen::create` is run under every single-fault plan of its own call
+sequence and the model must emit the same calls and result.
+-/
+namespace Spawn
+
+/-- the 4-byte little-endian errno channel: `decode (encode e) = e` for every 32-bit value -/
+def encodeLE (e : Nat) : List Nat := [e % 256, e / 256 % 256, e / 65536 % 256, e / 16777216 % 256]
+def decodeLE : List Nat → Nat
+  | [a, b, c, d] => a + b * 256 + c * 65536 + d * 16777216
+  | _ => 0
+theorem c07_errno_roundtrip (e : Nat) (h : e < 4294967296) : decodeLE (encodeLE e) = e := by
+  simp only [encodeLE, decodeLE]; omega
+
+/-- **C07 (nothing left behind, failure before the process exists).**  If the attempt fails before
+    or at the fork — any `pipe`, `fcntl` or `fork` failing, an invalid configuration, a NUL byte —
+    the call closes exactly the descriptors the attempt owned, which include every descriptor any
+    `pipe()` answer handed to it and every file passed in; it never waits and never forks again. -/
+theorem c07_no_fd_left_before_fork (c : Cfg) (rs : List SResp) (ha : c.argvEmpty = false) (r : Res)
+    (hf : (acquireAll (stagesOf c) (s0 c) rs).fail = some r) :
+    (parentRun c rs).res = r ∧
+    closedBy (parentRun c rs).calls = (acquireAll (stagesOf c) (s0 c) rs).s.owned ∧
+    (∀ f ∈ (acquireAll (stagesOf c) (s0 c) rs).s.got ++ cfgFiles c, f ∈ closedBy (parentRun c rs).calls) ∧
+    hasWait (parentRun c rs).calls = false := by
+  obtain ⟨hc, hr⟩ := parentRun_fail c rs ha r hf
+  obtain ⟨p1, p2, -, p4, p5, -⟩ := prefork_facts c rs
+  refine ⟨hr, by rw [hc, closedBy_append, p1, closedBy_closeAll]; rfl, ?_, by rw [hc, hasWait_append, p2]; simp⟩
+  intro f hfm
+  rw [hc, closedBy_append, p1, closedBy_closeAll]
+  rcases List.mem_append.mp hfm with h | h
+  · exact p5 f h
+  · exact p4 f h
+
+/-- **C07 (Ok iff started, and only after that is known).**  After a successful fork the result
+    is decided by the read on the status channel, which is issued after the child ends and the
+    write end were released: `Ok` iff it returned 0 bytes (the close-on-exec write end was closed by
+    a successful `exec` — A4); 4 bytes give the reported errno. -/
+theorem c07_ok_iff_status_empty (c : Cfg) (s : AState) (calls : List SCall) (d : List SResp) :
+    ((afterRead c s calls d).res = .ok ↔ ∃ e rs', d = .nbytes 0 e :: rs') ∧
+    (∀ e rs', d = .nbytes 4 e :: rs' → (afterRead c s calls d).res = .err e) := by
+  constructor
+  · constructor
+    · intro h
+      unfold afterRead at h
+      split at h <;> first | exact ⟨_, _, rfl⟩ | (simp at h)
+    · rintro ⟨e, rs', rfl⟩; simp [afterRead]
+  · rintro e rs' rfl; simp [afterRead]
+
+/-- the child reports a failure — and only a failure — through the status channel: it writes the
+    errno of the first failing step (or of the last `exec` attempt) and exits, or it starts the
+    program and writes nothing -/
+theorem c07_child_reports_iff_failed (c : Cfg) (p : Pipes) (sr sw : Nat) (rs : List SResp) :
+    ((childRun c p sr sw rs).2 = none → ∀ e, SCall.writeStatus sw e ∉ (childRun c p sr sw rs).1) ∧
+    (∀ e, (childRun c p sr sw rs).2 = some e →
+      (childRun c p sr sw rs).1.getLast? = some (.exit 127) ∧ SCall.writeStatus sw e ∈ (childRun c p sr sw rs).1) := by
+  unfold childRun
+  have hsteps : ∀ e, SCall.writeStatus sw e ∉ (runSteps (childSteps c p sr) rs).1 := by
+    intro e
+    have : ∀ (l : List SCall) (rs : List SResp), SCall.writeStatus sw e ∉ l → SCall.writeStatus sw e ∉ (runSteps l rs).1 := by
+      intro l
+      induction l with
+      | nil => intro rs h; simp [runSteps]
+      | cons x xs ih =>
+        intro rs h
+        cases rs with
+        | nil => simp [runSteps]; intro h'; exact h (by simp [h'])
+        | cons r rs =>
+          have hx : SCall.writeStatus sw e ≠ x := fun h' => h (by simp [h'])
+          have := ih rs (fun h' => h (by simp [h']))
+          cases r <;> simp [runSteps, hx, this]
+    apply this
+    simp [childSteps, dupStep]
+    refine ⟨?_, ?_, ?_, ?_, ?_⟩ <;> (try split) <;> (try split) <;> simp <;> (repeat' split) <;> simp
+  have hexec : ∀ i n e0 rs e, SCall.writeStatus sw e ∉ (execLoop i n e0 rs).1 := by
+    intro i n
+    induction n generalizing i with
+    | zero => intro e0 rs e; simp [execLoop]
+    | succ n ih =>
+      intro e0 rs e
+      cases rs with
+      | nil => simp [execLoop]
+      | cons r rs => cases r <;> simp [execLoop, ih]
+  constructor
+  · intro h e
+    split at h
+    · simp at h
+    · rename_i calls rs' heq
+      split at h
+      · rename_i ecalls heq2
+        simp only [List.mem_append, not_or]
+        have h1 := hsteps e; rw [heq] at h1
+        have h2 := hexec 0 c.ncand ENOENT rs' e; rw [heq2] at h2
+        exact ⟨h1, h2⟩
+      · simp at h
+  · intro e h
+    split at h
+    · rename_i calls e' rs' heq
+      simp only [Option.some.injEq] at h; subst h
+      simp
+    · rename_i calls rs' heq
+      split at h
+      · simp at h
+      · rename_i ecalls e' heq2
+        simp only [Option.some.injEq] at h; subst h
+        simp
+
+/-- **C07 (no child left, also when detached).**  When the child reports that it could not start
+    the program, the parent waits for it before returning the error — whether or not `detached` was
+    requested (defect F11 of the original code) — and then closes the status channel and every
+    parent-side pipe end; together with the child ends and the status write end released right
+    after the fork nothing the attempt recorded stays open. -/
+theorem c07_failed_child_is_reaped (c : Cfg) (s : AState) (rs rs' : List SResp) (e : Nat)
+    (h : rs.drop ((ownedEnds c s.pipes).length + 1) = .nbytes 4 e :: rs') :
+    (afterFork c s rs).res = .err e ∧ hasWait (afterFork c s rs).calls = true ∧
+    (∀ f ∈ statusR s :: statusW s :: (ownedEnds c s.pipes ++ parentEnds c s.pipes), f ∈ closedBy (afterFork c s rs).calls) := by
+  unfold afterFork
+  rw [h]
+  simp only [afterRead]
+  refine ⟨trivial, by simp [hasWait], ?_⟩
+  intro f hf
+  simp only [closedBy_append, closedBy_closeAll, List.mem_append]
+  simp only [List.mem_cons, List.mem_append] at hf
+  rcases hf with rfl | rfl | hf | hf
+  · right; simp
+  · left; left; right; simp [closedBy]
+  · left; left; left; right; exact hf
+  · right; simp [hf]
+
+/-! ### Non-vacuity (tests, labelled as tests) -/
+def cfgPPP : Cfg := { sin := .pipe, sout := .pipe, serr := .pipe, detached := true, cwd := false, uid := none, gid := none,
+                      pgid := false, argvEmpty := false, nul := false, ncand := 1 }
+-- the second stream pipe fails: both ends of the status pipe and of the first stream pipe are closed again
+example : closedBy (parentRun cfgPPP [.fds 3 4, .val 0, .ok, .val 0, .ok, .fds 5 6, .val 0, .ok, .err 24]).calls = [3, 4, 5, 6] := by decide
+-- the child reports errno 2 after a successful fork: waited for although detached
+example : hasWait (parentRun cfgPPP [.fds 3 4, .val 0, .ok, .val 0, .ok, .fds 5 6, .val 0, .ok, .fds 7 8, .val 0, .ok,
+    .fds 9 10, .val 0, .ok, .ok, .ok, .ok, .ok, .ok, .nbytes 4 2, .ok]).calls = true := by decide
+
+end Spawn
